@@ -42,8 +42,10 @@ class Specs:
         self.items = {}      # file -> [text]
         self.prelude = []    # text placed at crate root
         self.axioms = []     # text placed in crate::rp_axioms
+        self.axioms_json = []  # axioms about `json()` of claim types: separate group, not broadcast inside generic/claims (cycle)
         self.specdefs = []   # text placed in crate::rp_spec (spec fns / lemmas about repo types; no module-level broadcast use)
         self.companions = {} # (file, impl_norm) -> text replacing the generated *SpecImpl companion
+        self.implitems = {}  # (file, impl_norm) -> spec items placed inside that impl block
         self.dropfns = set()
 
 def parse_vspec(path, specs):
@@ -56,11 +58,13 @@ def parse_vspec(path, specs):
         elif mode == "prelude" and t.strip():
             specs.prelude.append(t)
         elif mode == "axioms" and t.strip():
-            specs.axioms.append(t)
+            (specs.axioms_json if arg == "json" else specs.axioms).append(t)
         elif mode == "specs" and t.strip():
             specs.specdefs.append(t)
         elif mode == "companion":
             specs.companions[(cur_file, R.norm(arg))] = t
+        elif mode == "implitems":
+            specs.implitems[(cur_file, R.norm(arg))] = t
         elif mode == "requires": cur.requires.append((arg, t))
         elif mode == "ensures": cur.ensures.append((arg, t))
         elif mode == "entry": cur.entry.append(t)
@@ -80,9 +84,10 @@ def parse_vspec(path, specs):
             if d == "@file": cur_file = rest; cur = None
             elif d == "@items": mode = "items"
             elif d == "@prelude": mode = "prelude"
-            elif d == "@axioms": mode = "axioms"
+            elif d == "@axioms": mode = "axioms"; arg = rest
             elif d == "@specs": mode = "specs"
             elif d == "@companion": mode = "companion"; arg = rest
+            elif d == "@implitems": mode = "implitems"; arg = rest
             elif d == "@fn":
                 m = re.match(r"(.*?)\s*::\s*(\w+)\s*((?:\w+=\S+\s*)*)$", rest)
                 if not m: raise ExtractError("%s:%d: bad @fn" % (path, ln))
@@ -228,8 +233,20 @@ def rule_body_text(ctx, file, s):
     # R-constclosure: `|_| Enum::Variant` (argument ignored, unit-variant body) gets the ensures it trivially satisfies
     s = sub("R-constclosure", r"\|_\|\s*(\w+)::(\w+)\s*\)", r"|_e| -> (__r: \1) ensures __r is \2 { \1::\2 })", s)
     s = sub("R-underscore", r"\|_\|", "|_e|", s)
+    # R-serjson: the serialize-to-bytes-then-parse idiom of GenericBuilder::set_claim -> one shim call (assumed to yield value.json())
+    s = sub("R-serjson", r"let mut (\w+) = Vec::new\(\);\s*let mut (\w+) = serde_json::Serializer::new\(&mut \1\);\s*erased_serde::serialize\(&(\w+), &mut \2\)\.unwrap\(\);\s*let (\w+): serde_json::Value = serde_json::from_slice\(&\1\)\.unwrap\(\);",
+            r"let \4: serde_json::Value = erased_serde::to_json_via_bytes(&\3);", s)
+    # R-jsonindex: `j[&k]` on a local serde_json::Value -> the shim call with serde_json's Index semantics (Null when absent)
+    s = sub("R-jsonindex", r"(?<![\w.])(json|raw)\[&(\w+)\]", r"(*serde_json::value_index(&\1, &\2))", s)
+    VI = r"\(\*serde_json::value_index\([^()]*\)\)"
+    s = sub("R-jsoncmp", r"(%s) == (Value::Null)" % VI, r"serde_json::value_eq(&\1, &\2)", s)
+    s = sub("R-jsoncmp", r"(%s) != (%s)" % (VI, VI), r"!serde_json::value_eq(&\1, &\2)", s)
+    # R-dynfn (call side): `validator(key, v)` on a `&dyn ValidatorFn` -> `validator.call(key, v)`
+    s = sub("R-dynfn-call", r"\bvalidator\((\w+), ", r"validator.call(\1, ", s)
     # R-vecfrom: `Vec::from(x)` for a slice x is `x.to_vec()` (body of `impl From<&[T]> for Vec<T>`); vstd specifies to_vec only
     s = sub("R-vecfrom", r"\bVec::from\((\w+)\)", r"(\1).to_vec()", s)
+    # R-stringfrom: `String::from(s)` for s: &str is `s.to_string()` (both copy the contents); vstd specifies the latter only
+    s = sub("R-stringfrom", r"\bString::from\((\w+(?:\.\w+)*)\)", r"(\1).to_string()", s)
     # R-localtype: a fn-local `type A = T;` is inlined (Verus rejects item statements); `A::f` -> `<T>::f`
     for m in list(re.finditer(r"\btype (\w+) = ([^;]+);", s)):
         name, ty = m.group(1), m.group(2).strip()
@@ -362,6 +379,7 @@ class FileEmitter:
 
     def keep_attrs(self, it):
         keep = []
+        tuple_field = it.kind == "struct" and re.search(r"\(\s*(pub\s*)?\(", R.text(it.toks)) is not None
         for a in it.attrs:
             t = R.text(a)
             if CFG_ATTR.match(t): self.ctx.dropped["cfg_attrs"] += 1; continue
@@ -371,6 +389,9 @@ class FileEmitter:
             if m:
                 ds = [x.strip() for x in m.group(1).split(",") if x.strip()]
                 nds = [x for x in ds if x not in ("Error", "Zeroize", "thiserror::Error")]
+                if tuple_field:
+                    # derived Clone/Debug on a struct with a tuple-typed field: outside Verus ("built-in instance Misc"); dropped, not verified
+                    nds = [x for x in nds if x not in ("Clone", "Debug")]
                 if len(nds) != len(ds): self.ctx.dropped["derive_attrs"] += 1
                 if not nds: continue
                 t = "#[derive(%s)]" % ", ".join(nds)
@@ -393,6 +414,9 @@ class FileEmitter:
             hdr = R.text(it.header).replace("crate::core", "crate::rp_core")
             hdr = self.rule_header(it, hdr)
             self.out.add("".join(a + "\n" for a in attrs) + hdr + " {\n")
+            ii = self.ctx.specs.implitems.get((self.rel, R.norm(R.text(it.header))))
+            if ii:
+                self.out.add(ii + "\n", {"file": self.rel, "part": "implitems"}); self.ctx.used_implitems.add((self.rel, R.norm(R.text(it.header))))
             self.emit_items(it.children, it, indent + "    ")
             self.out.add("}\n\n")
             self.companions_for_impl(it)
@@ -457,9 +481,20 @@ class FileEmitter:
             if it.kind == "trait": pass
             return txt2
         if it.kind == "type":
+            m = re.match(r"pub type (\w+) = dyn Fn\(&str, &Value\) -> Result<\(\), PasetoClaimError>;$", txt)
+            if m:
+                new = ("pub trait %s {\n    // the verdict is a function of (key, value) and the single clock reading time::now_spec()\n"
+                       "    spec fn verdict(&self, key: Seq<char>, value: Value) -> bool;\n"
+                       "    fn call(&self, key: &str, value: &Value) -> (r: Result<(), PasetoClaimError>) ensures r is Ok <==> self.verdict(key@, *value);\n}\n"
+                       "impl<'a> %s for &'a (dyn %s + 'static) {\n    open spec fn verdict(&self, key: Seq<char>, value: Value) -> bool { (**self).verdict(key, value) }\n"
+                       "    fn call(&self, key: &str, value: &Value) -> (r: Result<(), PasetoClaimError>) { (**self).call(key, value) }\n}" % (m.group(1), m.group(1), m.group(1)))
+                ctx.log("R-dynfn", self.rel, it.line, txt, new); return new
+            txt = re.sub(r"Box<ValidatorFn>", "Box<dyn ValidatorFn>", txt)
             return txt.replace("crate::core", "crate::rp_core")
         if it.kind == "const":
-            return txt
+            new = re.sub(r"^pub\s*\((self|crate)\)\s*const", "pub const", txt)
+            if new != txt: ctx.log("R-pubitems", self.rel, it.line, txt[:40], new[:40])
+            return new
         if it.kind == "trait":
             return txt
         if it.kind == "other":
@@ -573,6 +608,9 @@ class FileEmitter:
         spec = ctx.specs.fns.get(key)
         if spec: spec.used = True
         sig = R.text(it.sig).replace("crate::core", "crate::rp_core")
+        if "ValidatorFn" in sig:
+            new = re.sub(r"(&'static\s+)ValidatorFn\b", r"\1dyn ValidatorFn", sig)
+            if new != sig: ctx.log("R-dynfn", self.rel, it.line, sig.strip()[:120], new.strip()[:120]); sig = new
         d = sig_split(sig)
         d = rule_implarg(ctx, self.rel, d)
         body = R.text(it.body) if it.body is not None else None
@@ -584,6 +622,8 @@ class FileEmitter:
             if re.search(r"\bDisplay\s+for\b", R.text(parent.header)):
                 self.disp_spec(parent, body)
         if spec and spec.external_body: ext = True
+        if parent is not None and parent.kind == "impl" and re.search(r"\bserde::Serialize\s+for\b", R.text(parent.header)) and it.name == "serialize":
+            ext = True   # R-serialize: serde's Serializer protocol is outside the model; `json()` (injected via @implitems) states the produced tree
         has_ens = bool(spec and spec.ensures)
         sigtxt = sig_join(d, spec.ret if (spec and d["ret"] is not None) else None)
         chunks = []
@@ -761,7 +801,7 @@ def emit_module(ctx, out, rel, modname, include, stubset, depth=0):
     if modname is not None:
         name = "rp_core" if (modname == "core" and depth == 1) else modname
         out.add("pub mod %s {\n" % name)
-    out.add("#[allow(unused_imports)] use vstd::prelude::*;\n#[allow(unused_imports)] use crate::shim_prelude::*;\n#[allow(unused_imports)] use crate::rp_axioms::*;\n#[allow(unused_imports)] use crate::rp_spec::*;\n")
+    out.add("#[allow(unused_imports)] use vstd::prelude::*;\n#[allow(unused_imports)] use crate::shim_prelude::*;\n#[allow(unused_imports)] use crate::rp_axioms::*;\n#[allow(unused_imports)] use crate::rp_spec::*;\n#[allow(unused_imports)] use crate::serde::Serialize as _;\n#[allow(unused_imports)] use crate::erased_serde::Serialize as _;\n")
     excluded = set()
     for it in items:
         if it.kind == "mod_decl":
@@ -774,7 +814,7 @@ def emit_module(ctx, out, rel, modname, include, stubset, depth=0):
                 excluded.add(it.name); ctx.excluded.append(sub); continue
             emit_module(ctx, out, sub, it.name, include, stubset, depth + 1)
     em = FileEmitter(ctx, rel, out, stub=(rel in stubset))
-    out.add("verus!{\n" + BROADCAST_USE)
+    out.add("verus!{\n" + (BROADCAST_USE if rel.startswith("generic/claims/") or rel.startswith("core/") else BROADCAST_USE.replace("crate::rp_axioms::group_rp,", "crate::rp_axioms::group_rp, crate::rp_axioms::group_rp_json,")))
     rest = []
     for it in items:
         if it.kind == "mod_decl": continue
@@ -798,7 +838,7 @@ def build(include=None, stubset=(), spec_paths=None, shim_paths=None, out_path=N
     ctx = Ctx(specs)
     ctx.files = []; ctx.excluded = []
     ctx.stub_fns = set(stub_fns); ctx.drop_uses = set(drop_uses)
-    ctx.used_companions = set()
+    ctx.used_companions = set(); ctx.used_implitems = set()
     out = Out()
     out.add("#![feature(allocator_api)]\n#![feature(sized_hierarchy)]\n#![allow(unused)]\n#![allow(unused_imports, dead_code, non_camel_case_types, unused_parens, unused_braces)]\nuse vstd::prelude::*;\n")
     for p in (shim_paths or []):
@@ -811,7 +851,10 @@ def build(include=None, stubset=(), spec_paths=None, shim_paths=None, out_path=N
     names = []
     for t in specs.axioms:
         names += re.findall(r"broadcast\s+(?:axiom|proof)\s+fn\s+(\w+)", t)
-    out.add("pub mod rp_axioms {\nuse vstd::prelude::*;\nuse crate::shim_prelude::*;\nuse crate::rp_core::*;\nuse crate::rp_core::common::*;\n#[allow(unused_imports)] use std::array::TryFromSliceError;\nverus!{\n")
+    extra_use = ""
+    if "generic/mod.rs" in ctx.files: extra_use += "#[allow(unused_imports)] use crate::generic::*;\n"
+    if "prelude/mod.rs" in ctx.files: extra_use += "#[allow(unused_imports)] use crate::prelude::*;\n"
+    out.add("pub mod rp_axioms {\nuse vstd::prelude::*;\nuse crate::serde::Serialize as _;\nuse crate::erased_serde::Serialize as _;\nuse crate::shim_prelude::*;\nuse crate::rp_core::*;\nuse crate::rp_core::common::*;\n" + extra_use + "#[allow(unused_imports)] use std::array::TryFromSliceError;\nverus!{\n")
     for t in specs.axioms:
         out.add(t + "\n", {"file": "contracts", "part": "axioms"})
     for (rel, en, v, t, ctor) in ctx.gen_axioms:
@@ -821,8 +864,12 @@ def build(include=None, stubset=(), spec_paths=None, shim_paths=None, out_path=N
         out.add("// `?` conversion (FromResidual -> From::from) for the synthesised #[from] impl (D-4)\n"
                 "pub broadcast axiom fn %s(e: %s, ret: %s::%s) requires #[trigger] vstd::std_specs::control_flow::spec_from::<%s::%s, %s>(e, ret) ensures ret == (%s::%s::%s%s);\n"
                 % (nm, t, mp, en, mp, en, t, mp, en, v, ctor), {"file": rel, "part": "gen_axiom"})
-    out.add("pub broadcast group group_rp { %s }\n}\n}\n" % ", ".join(names))
-    out.add("pub mod rp_spec {\nuse vstd::prelude::*;\nuse crate::shim_prelude::*;\nuse crate::rp_axioms::*;\nuse crate::rp_core::*;\nuse crate::rp_core::common::*;\nverus!{\n")
+    jnames = []
+    for t in specs.axioms_json:
+        jnames += re.findall(r"broadcast\s+(?:axiom|proof)\s+fn\s+(\w+)", t)
+        out.add(t + "\n", {"file": "contracts", "part": "axioms"})
+    out.add("pub broadcast group group_rp { %s }\npub broadcast group group_rp_json { %s }\n}\n}\n" % (", ".join(names), ", ".join(jnames)))
+    out.add("pub mod rp_spec {\nuse vstd::prelude::*;\nuse crate::serde::Serialize as _;\nuse crate::erased_serde::Serialize as _;\nuse crate::shim_prelude::*;\nuse crate::rp_axioms::*;\nuse crate::rp_core::*;\nuse crate::rp_core::common::*;\n" + extra_use + "verus!{\n")
     for t in specs.specdefs:
         out.add(t + "\n", {"file": "contracts", "part": "specs"})
     out.add("}\n}\n")
